@@ -186,15 +186,18 @@ def build_match(m):
 # own XML rendering (lxml elements, no namespace handling here: `E` makes elements)
 
 
-def _b(x):
-    return "true" if x else "false"
+def _b(x, opts=None):
+    """xs:boolean spelling; 'false' may also be written '0'"""
+    if x:
+        return "true"
+    return "0" if opts and opts.get("false_as_0") else "false"
 
 
 def render_cmp(E, c, opts=None):
     opts = opts or {}
     attrib = {"parameterRef": c["ref"], "value": c["value"]}
     if not (c["cal"] and opts.get("omit_defaults")):
-        attrib["useCalibratedValue"] = _b(c["cal"])
+        attrib["useCalibratedValue"] = _b(c["cal"], opts)
     if not (c["op"] == "==" and opts.get("omit_defaults")):
         attrib["comparisonOperator"] = c["op"].replace("&lt;", "<").replace("&gt;", ">") \
             if opts.get("entity_ops", True) else c["op"]
@@ -204,7 +207,7 @@ def render_cmp(E, c, opts=None):
 def _render_pref(E, name, cal, opts):
     attrib = {"parameterRef": name}
     if not (cal and opts.get("omit_defaults")):
-        attrib["useCalibratedValue"] = _b(cal)
+        attrib["useCalibratedValue"] = _b(cal, opts)
     return E("ParameterInstanceRef", attrib)
 
 
